@@ -328,6 +328,133 @@ class Flow:
         return True, []
 
 
+def _source_columns(repo: Repo, R: Report) -> None:
+    """Source loading keeps every cell under its own key: each value the loader files into a column of the mapping
+    it returns is (a pure function of) the value of one (key, value) pair of the parsed data, the column is named by
+    that pair's own key, and every pair of the row is filed.  A loader that takes the key set from somewhere else
+    (the first row, a header) or looks cells up with a default drops keys / invents values: runs then lack declared
+    keys and ragged rows are no longer rejected as mismatched lengths."""
+    r_src = R.rule("C08-D1-source-columns", "the source loader files every (key, value) pair of every parsed row / mapping under the column named by the pair's own key and stores nothing else: no key is dropped (runs carry the union of keys) and no cell is invented (unequal column lengths stay visible to the length guards)", 3)
+    lsf = nfunc(repo, RS, LSF, keep=KEEP, copyprop="all")
+    FS = Flow(lsf)
+    a = lsf.args
+    local_names = {x.arg for x in a.posonlyargs + a.args + a.kwonlyargs} | {x.id for x in ast.walk(lsf) if isinstance(x, ast.Name) and isinstance(x.ctx, ast.Store)}
+    cols: Set[str] = set()
+    sites: List[Tuple[ast.AST, ast.AST, ast.AST, List[ast.comprehension], Optional[str]]] = []  # (node, key, cells, own generators, mapping)
+
+    def display_sites(node: ast.AST, v: ast.AST, mapping: Optional[str]) -> None:
+        if isinstance(v, ast.DictComp):
+            sites.append((node, v.key, v.value, list(v.generators), mapping))
+        elif isinstance(v, ast.Dict):
+            for k, val in zip(v.keys, v.values):
+                if k is not None:
+                    sites.append((node, k, val, [], mapping))
+
+    for r in walk_no_nested(lsf):
+        if isinstance(r, ast.Return) and r.value is not None:
+            v = strip_keyset(r.value)
+            if isinstance(v, ast.Name):
+                cols.add(v.id)
+            else:
+                display_sites(r, v, None)
+    for n in ast.walk(lsf):
+        if isinstance(n, (ast.Assign, ast.AnnAssign)) and n.value is not None:
+            for t in (n.targets if isinstance(n, ast.Assign) else [n.target]):
+                if isinstance(t, ast.Name) and t.id in cols:
+                    display_sites(n, n.value, t.id)
+                elif isinstance(t, ast.Subscript) and isinstance(t.value, ast.Name) and t.value.id in cols:
+                    sites.append((n, t.slice, n.value, [], t.value.id))
+        elif isinstance(n, ast.AugAssign) and isinstance(n.op, ast.Add) and isinstance(n.target, ast.Subscript) and isinstance(n.target.value, ast.Name) and n.target.value.id in cols:
+            sites.append((n, n.target.slice, n.value, [], n.target.value.id))
+        elif isinstance(n, ast.Call) and isinstance(n.func, ast.Attribute) and n.func.attr in ("append", "extend") and len(n.args) == 1:
+            holder = n.func.value
+            if isinstance(holder, ast.Subscript) and isinstance(holder.value, ast.Name) and holder.value.id in cols:
+                sites.append((n, holder.slice, n.args[0], [], holder.value.id))
+            elif isinstance(holder, ast.Call) and isinstance(holder.func, ast.Attribute) and holder.func.attr == "setdefault" and isinstance(holder.func.value, ast.Name) and holder.func.value.id in cols and holder.args:
+                sites.append((n, holder.args[0], n.args[0], [], holder.func.value.id))
+
+    def bound_inside(e: ast.AST) -> Set[str]:
+        return {t.id for c in ast.walk(e) if isinstance(c, COMPS) for gen in c.generators for t in ast.walk(gen.target) if isinstance(t, ast.Name)}
+
+    def depends_only(e: ast.AST, at: ast.AST, allowed: Set[str], depth: int = 0) -> bool:
+        """Every local the expression reads is one of *allowed* (locals naming a pure value are followed)."""
+        own = bound_inside(e)
+        for x in ast.walk(e):
+            if isinstance(x, ast.Name) and isinstance(x.ctx, ast.Load) and x.id in local_names and x.id not in allowed and x.id not in own:
+                if depth > 3:
+                    return False
+                vals = [(v, st) for v, st in FS.values(x, at) if v is not x]
+                if not vals or not all(depends_only(v, st, allowed, depth + 1) for v, st in vals):
+                    return False
+        return True
+
+    def mentions(e: ast.AST, at: ast.AST, name: str, depth: int = 0) -> bool:
+        for x in ast.walk(e):
+            if isinstance(x, ast.Name) and isinstance(x.ctx, ast.Load):
+                if x.id == name:
+                    return True
+                if depth < 3 and x.id in local_names and any(v is not x and mentions(v, st, name, depth + 1) for v, st in FS.values(x, at)):
+                    return True
+        return False
+
+    def pair_of(it: ast.AST, tgt: ast.AST, body: Sequence[ast.AST] = ()) -> Optional[Tuple[str, str, Optional[str]]]:
+        """(key variable, value variable or None, mapping iterated) for `for k, v in X.items()` / `for k in X`."""
+        while isinstance(it, ast.Call) and isinstance(it.func, ast.Name) and it.func.id in ("list", "tuple", "iter") and len(it.args) == 1 and not it.keywords:
+            it = it.args[0]
+        if isinstance(it, ast.Call) and isinstance(it.func, ast.Attribute) and not it.args and not it.keywords and isinstance(it.func.value, ast.Name):
+            if it.func.attr == "items" and isinstance(tgt, ast.Name):
+                # for pair in X.items(): k, v = pair
+                for st in body:
+                    if isinstance(st, ast.Assign) and len(st.targets) == 1 and isinstance(st.value, ast.Name) and st.value.id == tgt.id:
+                        tgt = st.targets[0]
+                        break
+            if it.func.attr == "items" and isinstance(tgt, ast.Tuple) and len(tgt.elts) == 2 and all(isinstance(x, ast.Name) for x in tgt.elts):
+                return tgt.elts[0].id, tgt.elts[1].id, it.func.value.id
+            if it.func.attr == "keys" and isinstance(tgt, ast.Name):
+                return tgt.id, None, it.func.value.id
+        if isinstance(it, ast.Name) and isinstance(tgt, ast.Name):
+            return tgt.id, None, it.id
+        return None
+
+    def every_pair_filed(loop: ast.For, mapping: Optional[str]) -> bool:
+        """No pair of the row gets round all the stores into *mapping* inside *loop* (other than by raising)."""
+        inside = {id(x) for x in ast.walk(loop)}
+        stores = {FS.nid(node) for node, _k, _v, _g, m in sites if m == mapping and id(node) in inside}
+        lid = FS.nid(loop)
+        starts = [t for t, lab in FS.g.succ[lid] if lab == "T" and t not in stores]  # (reach() expands a blocked start)
+        seen = FS.g.reach(starts, blocked=stores)
+        return lid not in seen and FS.g.ret_exit not in seen
+
+    for node, key, cells, gens, mapping in sites:
+        if is_empty_container(cells):
+            continue  # an empty column: no cell is stored
+        at = node if isinstance(node, ast.stmt) else stmt_of(node)
+        cands: List[Tuple[ast.AST, ast.AST, Optional[ast.For], Optional[ast.comprehension]]] = [(gen.iter, gen.target, None, gen) for gen in gens]
+        cands += [(lp.iter, lp.target, lp, None) for lp in ancestors(node) if isinstance(lp, ast.For)]
+        ok = False
+        partial = False
+        for it, tgt, lp, gen in cands:
+            p = pair_of(it, tgt, lp.body if lp is not None else ())
+            if p is None:
+                continue
+            kvar, vvar, src_map = p
+            if not mentions(key, at, kvar):
+                continue
+            if vvar is not None:
+                good = mentions(cells, at, vvar) and depends_only(cells, at, {vvar})
+            else:
+                good = bool(found([cells], f"{src_map}[{kvar}]")) and depends_only(cells, at, {src_map, kvar}) and not any(isinstance(c, ast.Call) and call_attr(c) in ("get", "pop", "setdefault") for c in ast.walk(cells))
+            if not good:
+                continue
+            every = every_pair_filed(lp, mapping) if lp is not None else not gen.ifs
+            if every:
+                ok = True
+                break
+            partial = True
+        what = "some (key, value) pairs of a row are skipped: a key present in the source does not become a column" if partial else "the stored cells are not the values of the row's own (key, value) pairs filed under their own key (key set taken from elsewhere, e.g. the first row / a header, or cells looked up with a default): a key that appears only in some rows is dropped and a missing cell is invented, so runs lack declared keys and ragged rows are no longer rejected as mismatched lengths"
+        R.check(ok, r_src, RS, LSF, f"cells stored by `{norm(node)[:70]}`", what, getattr(node, "lineno", lsf.lineno))
+
+
 def run(repo: Repo, R: Report) -> None:
     mod = repo.module(RS)
     opts = dict(keep=KEEP, copyprop="all", loops=True)
@@ -1154,6 +1281,212 @@ def run(repo: Repo, R: Report) -> None:
         if isinstance(n, ast.Call) and call_name(n) in ("functools.reduce", "reduce") and n.args and _last(dotted_name(n.args[0])) == "mul" and ALL in names_in(n):
             ok = True
     R.check(ok or n_cap == 0, r_cap, RS, ERS, "projected size = product of len(runs) over all blocks", "the projected size is not the product of all block sizes", fn.lineno)
+
+    # ---- the size a cap test compares is never larger than the documented expansion: the lengths of all the
+    # ---- value lists of a side are multiplied only where that side is expanded combinatorially
+    r_sz = R.rule("C08-D3-cap-size", "a size tested against max_runs never exceeds the number of runs of the documented expansion: it counts expanded run lists, or multiplies the lengths of all value lists of a side (inline context / source columns) only where that side is expanded combinatorially (a by_position side contributes one run per position, not the product of its columns)", 1)
+    hdr = F.nid(bl)
+
+    def comp_binding(x: ast.Name) -> Optional[ast.comprehension]:
+        for a in ancestors(x):
+            if isinstance(a, COMPS):
+                for gen in a.generators:
+                    if any(isinstance(t, ast.Name) and t.id == x.id for t in ast.walk(gen.target)):
+                        return gen
+        return None
+
+    Measure = Tuple[ast.AST, ast.AST, bool, Tuple[Tuple[ast.AST, bool], ...]]
+
+    def measures(e: ast.AST, at: ast.AST, product: bool, conds: Tuple[Tuple[ast.AST, bool], ...], depth: int, visited: Set[Tuple[str, int]]) -> List[Measure]:
+        """The len() arguments the size *e* is computed from: (argument, statement, multiplied into the size?,
+        conditional-expression branches taken on the way)."""
+        if depth > 10 or isinstance(e, ast.Constant):
+            return []
+        out: List[Measure] = []
+        if isinstance(e, ast.Name):
+            if comp_binding(e) is not None:
+                return []
+            for d in F.defs(e.id, at):
+                k = (e.id, id(d[-1]))
+                if k in visited:
+                    continue
+                visited.add(k)
+                if d[0] == "val":
+                    out += measures(d[1], d[2], product, conds, depth + 1, visited)
+                elif d[0] == "aug":
+                    out += measures(d[1].value, d[1], product or isinstance(d[1].op, ast.Mult), conds, depth + 1, visited)
+                elif d[0] == "item":
+                    for v, st in F.values(e, at):
+                        if v is not e:
+                            out += measures(v, st, product, conds, depth + 1, visited)
+            return out
+        if isinstance(e, ast.BinOp):
+            p2 = product or isinstance(e.op, ast.Mult)
+            return measures(e.left, at, p2, conds, depth + 1, visited) + measures(e.right, at, p2, conds, depth + 1, visited)
+        if isinstance(e, ast.IfExp):
+            return measures(e.body, at, product, conds + ((e.test, True),), depth + 1, visited) + measures(e.orelse, at, product, conds + ((e.test, False),), depth + 1, visited)
+        if isinstance(e, ast.Call):
+            nm = call_name(e) or ""
+            if nm == "len" and len(e.args) == 1:
+                return [(e.args[0], at, product, conds)]
+            if nm in ("math.prod", "prod"):
+                return [m for a in e.args for m in measures(a, at, True, conds, depth + 1, visited)]
+            if nm in ("functools.reduce", "reduce") and len(e.args) >= 2:
+                mult = _last(dotted_name(e.args[0])) in ("mul", "__mul__") or (isinstance(e.args[0], ast.Lambda) and isinstance(e.args[0].body, ast.BinOp) and isinstance(e.args[0].body.op, ast.Mult))
+                return measures(e.args[1], at, product or mult, conds, depth + 1, visited)
+            if nm in ("max", "min", "sum", "int", "abs", "list", "tuple", "sorted"):
+                return [m for a in e.args for m in measures(a, at, product, conds, depth + 1, visited)]
+            return []
+        if isinstance(e, (ast.ListComp, ast.GeneratorExp, ast.SetComp)):
+            return measures(e.elt, at, product, conds, depth + 1, visited)
+        if isinstance(e, ast.Subscript):
+            return measures(e.value, at, product, conds, depth + 1, visited)
+        if isinstance(e, (ast.List, ast.Tuple)):
+            return [m for x in e.elts for m in measures(x.value if isinstance(x, ast.Starred) else x, at, product, conds, depth + 1, visited)]
+        return []
+
+    def column_sides(m: ast.AST, at: ast.AST) -> Optional[FrozenSet[str]]:
+        """Sides (ctx / src) whose value lists the mapping *m* holds, else None."""
+        p = prov(m, at)
+        return p if p and p <= (CTX | SRC) else None
+
+    def ranged_columns(it: ast.AST, tgt: ast.AST, x: ast.Name, at: ast.AST, depth: int = 0) -> Optional[FrozenSet[str]]:
+        """*x* (bound by iterating *it*) ranges over *all* the value lists of these sides; None when it does not."""
+        if depth > 4:
+            return None
+        if isinstance(it, ast.Name):
+            vals = [v for v, _s in F.values(it, at) if v is not it]
+            got = [ranged_columns(v, tgt, x, at, depth + 1) for v in vals]
+            return frozenset().union(*got) if got and all(s is not None for s in got) else None
+        while isinstance(it, ast.Call) and isinstance(it.func, ast.Name) and it.func.id in ("list", "tuple", "iter") and len(it.args) == 1 and not it.keywords:
+            it = it.args[0]
+        if isinstance(it, ast.Call) and isinstance(it.func, ast.Attribute) and not it.args and not it.keywords:
+            if it.func.attr == "values" and isinstance(tgt, ast.Name):
+                return column_sides(it.func.value, at)
+            if it.func.attr == "items" and isinstance(tgt, ast.Tuple) and len(tgt.elts) == 2 and isinstance(tgt.elts[1], ast.Name) and tgt.elts[1].id == x.id:
+                return column_sides(it.func.value, at)
+            return None
+        parts: Optional[List[ast.AST]] = None
+        if isinstance(it, (ast.Tuple, ast.List)) and it.elts and all(isinstance(el, ast.Starred) for el in it.elts):
+            parts = [el.value for el in it.elts]
+        elif isinstance(it, ast.Call) and call_name(it) in ("itertools.chain", "chain") and it.args and not it.keywords:
+            parts = list(it.args)
+        elif isinstance(it, ast.BinOp) and isinstance(it.op, ast.Add):
+            parts = [it.left, it.right]
+        if parts:
+            got = [ranged_columns(p, tgt, x, at, depth + 1) for p in parts]
+            return frozenset().union(*got) if all(s is not None for s in got) else None
+        return None
+
+    def measured_columns(x: ast.AST, at: ast.AST) -> Optional[FrozenSet[str]]:
+        """len(*x*) is the length of each value list of these sides in turn (x is an iteration variable over them)."""
+        if isinstance(x, ast.Subscript) and isinstance(x.slice, ast.Name):
+            # M[k] with k ranging over the keys of M
+            gen = comp_binding(x.slice)
+            ds = [] if gen is not None else F.defs(x.slice.id, at)
+            it = gen.iter if gen is not None else (ds[0][1].iter if len(ds) == 1 and ds[0][0] == "iter" and isinstance(ds[0][1].target, ast.Name) else None)
+            while isinstance(it, ast.Call) and isinstance(it.func, ast.Name) and it.func.id in ("sorted", "reversed") and len(it.args) == 1 and not it.keywords:
+                it = it.args[0]
+            if it is not None and _u(strip_keyset(it)) == _u(x.value):
+                return column_sides(x.value, at)
+            return None
+        if not isinstance(x, ast.Name):
+            return None
+        gen = comp_binding(x)
+        if gen is not None:
+            return ranged_columns(gen.iter, gen.target, x, at)
+        ds = F.defs(x.id, at)
+        if len(ds) == 1 and ds[0][0] == "iter":
+            return ranged_columns(ds[0][1].iter, ds[0][1].target, x, ds[0][1])
+        return None
+
+    def comb_atom(texts: Set[str]):
+        """Atom "the mode spelled by one of *texts* is combinatorial"."""
+        def atom(e: ast.AST) -> Optional[bool]:
+            if not (isinstance(e, ast.Compare) and len(e.ops) == 1):
+                return None
+            l, op, r = e.left, e.ops[0], e.comparators[0]
+            if isinstance(l, ast.Constant) and isinstance(op, (ast.Eq, ast.NotEq)):
+                l, r = r, l
+            if _u(l) not in texts:
+                return None
+            if isinstance(op, (ast.Eq, ast.NotEq)) and isinstance(r, ast.Constant):
+                if r.value == "combinatorial":
+                    return isinstance(op, ast.Eq)
+                return False if isinstance(op, ast.Eq) else None
+            if isinstance(op, (ast.In, ast.NotIn)) and isinstance(r, (ast.Tuple, ast.List, ast.Set)) and all(isinstance(x, ast.Constant) for x in r.elts):
+                vals = [x.value for x in r.elts]
+                if vals == ["combinatorial"]:
+                    return isinstance(op, ast.In)
+                if "combinatorial" not in vals:
+                    return False if isinstance(op, ast.In) else None
+            return None
+        return atom
+
+    def expanded_combinatorially(c: ast.Call, gid: int, conds: Sequence[Tuple[ast.AST, bool]], mid: Optional[int] = None) -> bool:
+        """The expansion call *c* is known to run in combinatorial mode whenever the lengths multiplied at node *mid*
+        (under the conditional-expression branches *conds*) enter the size tested at node *gid*."""
+        a1 = call_arg(c, 1, ee_params[1])
+        if a1 is None:
+            return False
+        vals = [v for v, _s in F.values(a1, c)]
+        if vals and all(isinstance(v, ast.Constant) and v.value == "combinatorial" for v in vals):
+            return True
+        texts = {_u(a1)} | {_u(v) for v in vals}
+        for v in vals:
+            if isinstance(v, ast.IfExp):
+                for br, oth in ((v.body, v.orelse), (v.orelse, v.body)):
+                    if isinstance(oth, ast.Constant) and oth.value == "combinatorial":
+                        texts.add(_u(br))
+        atom = comb_atom(texts)
+        for test, taken in conds:
+            if ("T" if taken else "F") in F.edges(test, atom):
+                return True
+        edges = []
+        for n in g.nodes:
+            if n.kind == "if" and n.part is not None:
+                edges.extend((n.id, e) for e in F.edges(n.part, atom))
+        return bool(edges) and (F.dominated([gid], edges)[0] or (mid is not None and F.dominated([mid], edges)[0]))
+
+    def same_iteration_expansions(gid: int) -> List[Tuple[ast.Call, str]]:
+        """Expansion calls that run in the same block iteration as node *gid* (before or after it)."""
+        fwd = g.reach([gid], blocked={hdr})
+        out = []
+        for c, side in [(c, "ctx") for c in ctx_exp] + [(c, "src") for c in src_exp]:
+            cid = F.nid(c)
+            if cid in fwd or gid in g.reach([cid], blocked={hdr}):
+                out.append((c, side))
+        return out
+
+    def judge_size(size: Optional[ast.AST], at: ast.AST, gid: int, line: int) -> None:
+        if size is None:
+            return
+        label = f"size tested against the cap: {_u(size)[:60]}"
+        for x, st, product, conds in measures(size, at, False, (), 0, set()):
+            sides = measured_columns(x, st) if product else None
+            if not sides:
+                continue
+            for c, side in same_iteration_expansions(gid):
+                if side in sides and not expanded_combinatorially(c, gid, conds, F.nid(st)):
+                    which = "source columns" if side == "src" else "inline context lists"
+                    R.violation(r_sz, RS, ERS, label, f"the size compared with max_runs multiplies the lengths of all {which} (`len({_u(x)})` in `{norm(stmt_of(x))[:70]}`), but `{_u(c)[:70]}` may expand that side by position (one run per row, not the product of its columns): a specification whose documented expansion is within max_runs is rejected with the max-runs error", line)
+                    return
+        R.ok(r_sz, RS, ERS, label, "", line)
+
+    for nid, _ok_e, _other, rs in F.guards(cap_atom):
+        if rs:
+            n = g.nodes[nid]
+            size = next((cap_cmp(x, cap_expr)[1] for x in ast.walk(n.part) if cap_cmp(x, cap_expr)), None)
+            judge_size(size, n.ast if isinstance(n.ast, ast.stmt) else stmt_of(n.part), nid, n.line)
+    for n in g.nodes:
+        if n.ast is not None and n.kind == "stmt":
+            for c in calls_in(n.ast):
+                for hname, idx in helper_calls:
+                    if call_attr(c) == hname and len(c.args) > idx:
+                        judge_size(c.args[idx], n.ast, n.id, c.lineno)
+
+    # ------------------------------------------------------------------ D1/D2 source loading: cells keep their own key
+    _source_columns(repo, R)
 
     # ------------------------------------------------------------------ D4 error classes
     r_err = R.rule("C08-D4-error-classes", "expansion raises only the documented configuration error and max-runs error", 5)
